@@ -559,6 +559,27 @@ def alt(ver, lvl, k, acc, want, pair='na'):
             kw['boost_error'] = False
         evaluate(acc, ('alt1', ver, lvl, k), content, parts, kw, single=(k == 1), decode=True,
                  exp_bytes=''.join(content).encode(), want=want)
+    if isinstance(ver, int) and want in ('c04', 'both'):
+        # the same request through make_sequence(version=ver): one symbol of that version holding the content, or a refusal
+        kw = {'version': ver, 'mask': 0}
+        if lvl is not None:
+            kw['error'] = lvl
+        pred = Sel.select(parts, error=lvl, version=ver, micro=False, boost=False)
+        try:
+            seq = segno.make_sequence(content, **kw)
+        except ValueError:
+            seq = None
+        case = ('alt1', ver, lvl, k)
+        acc.eval(case + ('seq',), nontrivial=seq is not None, outcome=None if seq is None else tuple(q.designator for q in seq), state=('altseq', ver, lvl, k))
+        if seq is not None:
+            if pred[0] == 'refuse' and len(seq) == 1:
+                acc.violation('accepted-overflow/sequence', 'make_sequence(%d alternating parts, version=%r, error=%r) returned one %s symbol, the content does not fit that version'
+                              % (k, ver, lvl, seq[0].designator), case)
+            elif len(seq) == 1:
+                rep = C.read(seq[0])
+                if [p for p in rep.problems if C.classify_problem(p) != 'remainder-bits'] or rep.payload != ''.join(content).encode():
+                    acc.violation('silent-cut/sequence', 'make_sequence(%d alternating parts, version=%r, error=%r) -> %s does not decode to the content (%s)'
+                                  % (k, ver, lvl, seq[0].designator, rep.problems[:1]), case)
 
 
 def alt_pair(ver, lvl, k, acc, want, pair):
